@@ -1,0 +1,10 @@
+//go:build verif
+
+// Hooks for the verification harness in /verif (suite `confine`, property C18, package route of the cache).
+// Compiled only with `-tags verif`; thin exported wrappers around unexported identifiers, no behaviour of their own.
+package apk
+
+import "net/url"
+
+// VerifPackageAsURL calls packageAsURL.
+func VerifPackageAsURL(pkg LocatablePackage) (*url.URL, error) { return packageAsURL(pkg) }
